@@ -310,6 +310,10 @@ def order_key_on_the_grid(ctx, rule):
       ctx.ob(rule, fi, fn, False, why, construct=cons_base, unknown=why)
       continue
     for c, k in keys:
+      if isinstance(k, ast.Call) and (dotted(k.func) or '').endswith('attrgetter') and k.args and all(isinstance(a, ast.Constant) and isinstance(a.value, str) for a in k.args):
+        # operator.attrgetter('a', 'b') is lambda x: (x.a, x.b)
+        k = ast.Lambda(args=ast.arguments(posonlyargs=[], args=[ast.arg(arg='x_')], kwonlyargs=[], kw_defaults=[], defaults=[]),
+                       body=ast.Tuple(elts=[ast.Attribute(value=ast.Name(id='x_', ctx=ast.Load()), attr=a.value, ctx=ast.Load()) for a in k.args], ctx=ast.Load()))
       if not isinstance(k, ast.Lambda):
         why = 'cannot classify: the sort key %s is not a lambda' % norm_text(k)[:60]
         ctx.ob(rule, fi, c, False, why, construct=cons_base, unknown=why)
